@@ -718,6 +718,10 @@ def replay(ctx, data):
                 rcs.append(2)
         else:
             rcs.append(cannot(kind, "unknown kind"))
+    while _XROOT:                      # scratch on the other filesystem (trace replays create it too)
+        x = _XROOT.pop()
+        if x:
+            shutil.rmtree(x, ignore_errors=True)
     rc = 1 if 1 in rcs else (2 if 2 in rcs or not rcs else 0)
     print("[C17 replay] verdict:", {0: "the property holds on this input", 1: "property VIOLATED on this input",
                                     2: "could not be replayed exactly"}[rc])
